@@ -402,6 +402,22 @@ pub fn replay_edge(edge: &Value, prop: &str, rep: &mut Report) {
                 }
             }
         }
+        "C13" => {
+            // FlatStack::get: own element for i < len, fail-stop beyond
+            if panicked.is_some() {
+                judged = false;
+            } else {
+                if obs["items"] != exp["items"] {
+                    why.push("get".into())
+                }
+                if obs["oob_panics"] != json!([true, true]) {
+                    why.push("get-out-of-bounds-did-not-panic".into())
+                }
+                if !why.is_empty() {
+                    detail = json!({"expected": exp, "observed": obs});
+                }
+            }
+        }
         "C19" => {
             // the optimised index container over a dense-index region spends no heap on indices
             if panicked.is_some() || edge["dense_opt"] != json!(true) {
